@@ -3,6 +3,10 @@ import ApolloModel.Proofs.DirectiveSearch
 import ApolloModel.Proofs.Implementation
 import ApolloModel.Proofs.DirectiveApplications
 import ApolloModel.Proofs.StickyBuild
+import ApolloModel.Proofs.SchemaBuildSpec6
+import ApolloModel.Proofs.SchemaNames
+import ApolloModel.Proofs.ValueCheck
+import ApolloModel.Proofs.ImplementsRule
 /-
 C14 — Schema validation agrees with the specification.
 
@@ -14,6 +18,45 @@ The executable models (`Model/SchemaValidation.lean`) transliterate the rules of
 (`FindRecursiveDirective`).  They are tied to the Rust code by the `c14.*` correspondence streams.
 The declarative side is `Spec/SchemaValidation.lean`.  `IsValidImplementationFieldType` is proved in
 `Properties/C29.lean` (`impl_field_type_iff`).  All theorems hold for schemas of any size.
+
+RULE TABLE — every named rule of the harness' independent validator (harness/src/specschema.rs) and the theorem of
+this file that states "apollo's code reports it iff the specification's predicate fails" (model following the code +
+declarative predicate + correspondence stream `c14.*`):
+
+  executable-definition, lone-schema-definition, unique-type-names, unique-directive-names,
+  extension-type-exists, extension-kind-match, schema-extension-without-schema, unique-field-names,
+  unique-enum-values, unique-union-members, unique-input-fields, unique-implemented-interfaces,
+  unique-operation-types                                   schema_build_iff_spec           (c13.schema, c14.build)
+      (the member/interface/root-operation uniqueness alone: build_reports_iff_duplicate)
+  object-has-fields, interface-has-fields, union-has-members, enum-has-values, input-has-fields
+                                                           nonempty_rule_iff_spec          (c14.build)
+  reserved-name-type, -field, -argument, -enum-value, -input-field, -directive, -directive-argument
+                                                           reserved_rule_iff_spec          (c14.reserved)
+  directive-argument-type, directive-argument-input-field-unique, default-value-type
+                                                           value_rule_iff_spec             (c14.values)
+      (default-value-type: the same function; apollo-compiler does not call it on defaults — issue 928, oracle
+       parameter `validate_default_values = false`)
+  query-root-required, root-type-exists, root-type-object, root-types-distinct
+                                                           roots_valid_iff                 (c14.roots)
+  unique-argument-names, unique-directive-argument-definitions
+                                                           argument_definitions_unique_iff (c14.dirapps)
+  field-type-exists, field-type-output, argument-type-exists, argument-type-input, input-field-type-exists,
+  input-field-type-input, directive-argument-type-exists, directive-argument-type-input, union-member-exists,
+  union-member-object                                      reference_kinds_rule_iff_spec   (c14.kinds)
+  implements-exists-interface, interface-self-implementation
+                                                           implements_rule_iff_spec        (c14.implements)
+  transitive-interfaces-declared                           transitive_interfaces_iff       (c14.implements)
+  impl-field-present, impl-field-type, impl-arg-present, impl-arg-type, impl-extra-arg-optional
+                                                           implementation_rule_iff_spec    (c14.implfields)
+  input-object-cycle, input-object-nesting-limit           input_rule_iff_spec             (c14.inputcycle)
+  directive-self-reference, directive-nesting-limit        directive_rule_iff_spec         (c14.dircycle)
+  directive-known, directive-location, directive-unique, directive-argument-known, directive-argument-unique,
+  directive-argument-required                              directive_applications_rule_iff_spec (c14.dirapps)
+
+No named rule is oracle-only any more.  What stays outside the theorems: each family is proved on its own abstract
+view of the schema (the views are tied to the code by the streams, not to each other by a theorem); the value rule
+assumes that the types mentioned exist and are input types (the reference rules above); the build theorem is for one
+document and the default builder (C13 has the several-sources theorems).
 -/
 namespace Apollo.C14
 open Apollo.SchemaValidation Apollo.SchemaValidation.Spec
@@ -318,5 +361,143 @@ theorem schema_verdict_iff_spec_partial2 (g : IGraph) (limit : Nat) (hg : g.leng
 example : (DirApps.schemaDirDiags
     (fun n => if n == 0 then some ⟨false, [DirApps.TsLoc.object.loc], [⟨0, true⟩]⟩ else none) DirApps.TsLoc.object.loc
     [⟨0, [⟨0, .other []⟩]⟩, ⟨0, []⟩, ⟨1, []⟩]) = [.uniqueDirective, .requiredArgument, .undefinedDirective] := by decide
+
+
+/-! ## growth 3: the rules that were oracle-only -/
+
+/-- **Build-time rules.**  `SchemaBuilder` (one pass over the definitions, with a queue of extensions that
+    precede their definition; Model/SchemaBuild.lean, tied to the code by `c13.schema` and `c14.build`) reports
+    no error iff the document satisfies the specification's order-free reading: no executable definition, at
+    most one schema definition, type names unique (built-in types included), directive names unique (a built-in
+    directive may be re-defined once), every extension extends a defined type of its own kind, a schema extension
+    has a schema to extend, and fields / enum values / union members / input fields / implemented interfaces /
+    root operation types are unique within their type, definition and extensions together.
+    Subsumes C13's `kind_mismatch_reported_in_both_orders` and `collision_first_definition_wins` examples. -/
+theorem schema_build_iff_spec (ds : List SchemaBuild.Def) (hwf : SchemaBuild.WellFormed ds) :
+    (SchemaBuild.build (SchemaBuild.Builder.new false false) [ds]).errors = [] ↔ SchemaBuild.BuildSpec ds :=
+  SchemaBuild.build_errors_iff_spec ds hwf
+
+/-- The loop invariant behind it, for later use: on an error-free build the entry of every type lists exactly
+    the members (and interfaces) its definition and its extensions give it, whatever their order. -/
+theorem built_type_has_all_members (ds : List SchemaBuild.Def) (hwf : SchemaBuild.WellFormed ds)
+    (he : (SchemaBuild.addDocument (SchemaBuild.Builder.new false false) ds).errors = [])
+    (n : SchemaBuild.Name) (t : SchemaBuild.TypeEntry)
+    (hf : SchemaBuild.findType (SchemaBuild.addDocument (SchemaBuild.Builder.new false false) ds).types n = some t) :
+    (∀ m, SchemaBuild.hasName t.body.members m = true ↔ m ∈ SchemaBuild.memberNames ds n) ∧
+    (∀ m, SchemaBuild.hasName t.body.interfaces m = true ↔ m ∈ SchemaBuild.ifaceNames ds n) :=
+  let hinv := (SchemaBuild.scan_spec ds hwf).2 he
+  ⟨hinv.t.members n t hf, hinv.t.ifaces n t hf⟩
+
+/-- **Non-emptiness.**  On an error-free build, validation pushes no `EmptyFieldSet` / `EmptyMemberSet` /
+    `EmptyValueSet` / `EmptyInputValueSet` iff every non-scalar type the document defines has at least one member
+    in its definition or in one of its extensions. -/
+theorem nonempty_rule_iff_spec (ds : List SchemaBuild.Def) (hwf : SchemaBuild.WellFormed ds)
+    (hb : (SchemaBuild.build (SchemaBuild.Builder.new false false) [ds]).errors = []) :
+    SchemaNames.emptyTypeDiags (SchemaBuild.build (SchemaBuild.Builder.new false false) [ds]).types = [] ↔
+      SchemaBuild.NonEmptyNames ds :=
+  SchemaBuild.nonempty_rule_iff_spec ds hwf hb
+
+/-- **Reserved names**, exactly: a `ReservedName` diagnostic is pushed for the name `cs` at `site` iff the document
+    introduces that name there (type, directive, field, argument of a field or a directive, enum value, input
+    field), outside the built-in definitions, and it starts with two underscores. -/
+theorem reserved_diag_exact (s : SchemaNames.SchemaNames) (site : SchemaNames.Site) (cs : List Char) :
+    (site, cs) ∈ SchemaNames.reservedDiags s ↔
+      ∃ n, SchemaNames.Spec.NamesOf s site n ∧ n.chars = cs ∧ n.builtIn = false ∧ SchemaNames.Spec.Reserved cs :=
+  SchemaNames.reserved_diag_iff s site cs
+
+theorem reserved_rule_iff_spec (s : SchemaNames.SchemaNames) :
+    SchemaNames.reservedDiags s = [] ↔ SchemaNames.Spec.NoReservedNames s :=
+  SchemaNames.reserved_rule_iff_spec s
+
+/-- **Values of correct type** (arguments of directives applied in the schema; default values once they are
+    checked): `value_of_correct_type` pushes no diagnostic for a constant iff the constant coerces to the type
+    (§3.5 scalars with the `i32` and finite-`f64` ranges, §3.9, §3.10 with §5.6.2–4, §3.11 incl. single-item
+    coercion, §3.12; custom scalars: `Spec/ValueCheck.lean`, `CustomOK`). -/
+theorem value_rule_iff_spec (S : ValueCheck.Schema) (hS : ValueCheck.Spec.Closed S) (ty : ValueCheck.Ty)
+    (hty : ValueCheck.Spec.Defined S ty) (v : ValueCheck.Value) :
+    ValueCheck.check S [] ty v = [] ↔ ValueCheck.Spec.Coerces S ty v :=
+  ValueCheck.value_rule_iff_spec S hS ty hty v
+
+/-- §5.6.3 holds for every object literal inside an accepted custom-scalar literal too (fix cce5216 and its
+    extension to nested literals) -/
+theorem opaque_literal_iff_unique (v : ValueCheck.Value) :
+    ValueCheck.opaqueDiags [] v = [] ↔ ValueCheck.Spec.LiteralOK v := ValueCheck.opaque_iff v
+
+/-- **`implements` lists**: no `UndefinedDefinition` / `RecursiveInterfaceDefinition` from
+    `validate_implements_interfaces` iff every listed name is a defined interface and no interface lists itself. -/
+theorem implements_rule_iff_spec (s : ISchema) :
+    (∀ (a : Nat) (t : TypeInfo), s[a]? = some t → undefinedImplements s t = [] ∧ selfImplements a t = []) ↔
+      ImplementsValid s :=
+  implements_rule_iff s
+
+open Apollo.Implementation Apollo.Implementation.Spec in
+/-- **The whole verdict, family by family.**  Every rule family of the independent validator has its theorem
+    (table at the top of this file); accepted iff all the specification's predicates hold.  The views
+    (`g`, `s`, roots, `ds`, …, `doc`, `names`, and the argument values `vals` with their types) are the
+    abstractions the correspondence streams tie to the real schema. -/
+theorem schema_verdict_iff_spec (g : IGraph) (limit : Nat) (hg : g.length ≤ limit)
+    (s : ISchema) (q m sub : Option RootTarget)
+    (ds : DSchema) (hd : ds.dirs.length ≤ limit) (ht : ds.types.length ≤ limit)
+    (isSub : Name → Name → Bool) (getIface : Nat → Option (List FieldM)) (tfields : List FieldM) (declared : List Nat)
+    (kindOf : String → Option Kind) (refs : TypeRefs)
+    (dirDef : Standalone.Name → Option Standalone.DirDef) (loc : Standalone.Loc) (apps : List Standalone.Dir)
+    (argNames : List Standalone.Name)
+    (doc : List SchemaBuild.Def) (hwf : SchemaBuild.WellFormed doc)
+    (names : SchemaNames.SchemaNames)
+    (S : ValueCheck.Schema) (hS : ValueCheck.Spec.Closed S)
+    (vals : List (ValueCheck.Ty × ValueCheck.Value)) (hvals : ∀ p ∈ vals, ValueCheck.Spec.Defined S p.1) :
+    (failingInputs g limit = [] ∧
+      (∀ (a : Nat) (t : TypeInfo), s[a]? = some t → missingTransitive s t = []) ∧
+      (∀ (a : Nat) (t : TypeInfo), s[a]? = some t → undefinedImplements s t = [] ∧ selfImplements a t = []) ∧
+      validateRoots q m sub = [] ∧
+      failingDirectives ds limit = [] ∧
+      implDiags isSub getIface tfields declared = [] ∧
+      typeRefDiags kindOf refs = [] ∧
+      DirApps.schemaDirDiags dirDef loc apps = [] ∧
+      DirApps.argDefDups [] argNames = 0 ∧
+      ((SchemaBuild.build (SchemaBuild.Builder.new false false) [doc]).errors = [] ∧
+        SchemaNames.emptyTypeDiags (SchemaBuild.build (SchemaBuild.Builder.new false false) [doc]).types = []) ∧
+      SchemaNames.reservedDiags names = [] ∧
+      (∀ p ∈ vals, ValueCheck.check S [] p.1 p.2 = [])) ↔
+    ((∀ r, ¬ InputCycleThrough g r) ∧ TransitiveClosed s ∧ ImplementsValid s ∧ RootsValid q m sub ∧
+      (∀ d, ¬ DirectiveSelfReference ds d) ∧
+      (∀ i ∈ declared, ∀ ifields, getIface i = some ifields → ValidImplementation isSub tfields ifields) ∧
+      RefsRightKind kindOf refs ∧
+      DirApps.Spec.DirectivesValid dirDef loc apps ∧
+      argNames.Nodup ∧
+      (SchemaBuild.BuildSpec doc ∧ SchemaBuild.NonEmptyNames doc) ∧
+      SchemaNames.Spec.NoReservedNames names ∧
+      (∀ p ∈ vals, ValueCheck.Spec.Coerces S p.1 p.2)) := by
+  rw [input_rule_iff_spec g limit hg, transitive_interfaces_iff, implements_rule_iff_spec, roots_valid_iff,
+    directive_rule_iff_spec ds limit hd ht, implementation_rule_iff_spec, reference_kinds_rule_iff_spec,
+    directive_applications_rule_iff_spec, argument_definitions_unique_iff, reserved_rule_iff_spec]
+  have hbuild : ((SchemaBuild.build (SchemaBuild.Builder.new false false) [doc]).errors = [] ∧
+        SchemaNames.emptyTypeDiags (SchemaBuild.build (SchemaBuild.Builder.new false false) [doc]).types = []) ↔
+      (SchemaBuild.BuildSpec doc ∧ SchemaBuild.NonEmptyNames doc) := by
+    constructor
+    · intro ⟨h1, h2⟩
+      exact ⟨(schema_build_iff_spec doc hwf).mp h1, (nonempty_rule_iff_spec doc hwf h1).mp h2⟩
+    · intro ⟨h1, h2⟩
+      have hb := (schema_build_iff_spec doc hwf).mpr h1
+      exact ⟨hb, (nonempty_rule_iff_spec doc hwf hb).mpr h2⟩
+  have hv : (∀ p ∈ vals, ValueCheck.check S [] p.1 p.2 = []) ↔ (∀ p ∈ vals, ValueCheck.Spec.Coerces S p.1 p.2) := by
+    constructor
+    · intro h p hp; exact (value_rule_iff_spec S hS p.1 (hvals p hp) p.2).mp (h p hp)
+    · intro h p hp; exact (value_rule_iff_spec S hS p.1 (hvals p hp) p.2).mpr (h p hp)
+  rw [hbuild, hv]
+
+-- Non-vacuity of the new families
+example : (SchemaBuild.build (SchemaBuild.Builder.new false false)
+    [[⟨.typeExt .object, "A", 0, 1, [], [], [⟨"x", 2, 2, ""⟩]⟩, ⟨.typeDef .object, "A", 10, 11, [], [], []⟩,
+      ⟨.typeDef .enum, "E", 20, 21, [], [], []⟩]]).errors = [] := by decide
+example : SchemaNames.emptyTypeDiags (SchemaBuild.build (SchemaBuild.Builder.new false false)
+    [[⟨.typeExt .object, "A", 0, 1, [], [], [⟨"x", 2, 2, ""⟩]⟩, ⟨.typeDef .object, "A", 10, 11, [], [], []⟩,
+      ⟨.typeDef .enum, "E", 20, 21, [], [], []⟩]]).types = [("E", .enum)] := by decide
+example : SchemaNames.reservedDiags ⟨[⟨⟨"__d".toList, false⟩, [⟨"__a".toList, false⟩]⟩],
+    [⟨⟨"__Type".toList, true⟩, .fields [⟨⟨"__x".toList, false⟩, []⟩]⟩]⟩ =
+    [(.directive, "__d".toList), (.argument, "__a".toList), (.field, "__x".toList)] := by decide
+example : ValueCheck.check ⟨[("I", .input [⟨"a", .nonNullNamed "Int", false⟩])]⟩ [] (.named "I")
+    (.object (.cons "a" (.int 2147483648) (.cons "a" .null .nil))) =
+    [.uniqueInputValue, .requiredField, .intCoercionError] := by decide
 
 end Apollo.C14
